@@ -43,8 +43,14 @@ def run(ctx):
     n_write_all = 0
     n_sink_calls = 0
     for crate in (lexpr, serde):
+        fwd = common.sink_forwarders(crate)
         for fn, bi, t in common.iter_calls(crate):
             c = t["callee"]
+            if (c.get("resolved") or c.get("path")) in fwd:
+                # a call of a local helper that only forwards to write_all counts as the write_all it performs
+                n_write_all += 1
+                r.ok("%s::%s: write_all through %s" % (crate.name, fn.path, c.get("path")), fn, t.get("line"))
+                continue
             if c.get("trait") != W and c.get("impl_of_trait") != W:
                 continue
             m = c.get("method")
@@ -85,7 +91,7 @@ def run(ctx):
         ("std::io::Error",), exc, "a sink's write error")
     n += common.errdrop_scan(
         r2, serde, lambda f: common.in_file(f, "serde-lexpr/src/ser.rs"),
-        ("std::io::Error", "error::Error"), exc, "a sink's write error")
+        ("std::io::Error", "error::Error"), exc, "a sink's write error", scope_gone=False)
     r2.note("`?` propagation sites on io::Result in the print path: %d" % n)
     r2.floor("io-propagation-sites", n)
 
@@ -192,7 +198,8 @@ def fmt_agree(ctx, lexpr):
     overrides = [f for f in lexpr.fns
                  if f.kind == "assoc" and f.self_ty == "print::CustomizedFormatter" and f.impl_trait == "print::Formatter"]
     r.floor("overrides", len(overrides))
-    inl = lambda a, b: False
+    fwd = common.sink_forwarders(lexpr)
+    inl = lambda a, b: b.path in fwd
     for cf in overrides:
         m = cf.path.rsplit("::", 1)[1]
         df = lexpr.fn("print::Formatter::" + m)
@@ -239,7 +246,9 @@ def fmt_agree(ctx, lexpr):
         for c in lexpr.closures_of(owner):
             for bi, t in c.calls():
                 cal = t["callee"]
-                if cal.get("trait") == W:
+                if (cal.get("resolved") or cal.get("path")) in fwd:
+                    out.append("write_all")
+                elif cal.get("trait") == W:
                     out.append(cal.get("method"))
         return sorted(out)
     a = closure_sink_methods("print::Formatter::write_bytes")
